@@ -218,7 +218,7 @@ class _Classes:
         raise TranslateError(f"unrecognised exception class expression: {ast.dump(expr)[:200]}")
 
 
-def _is_logger_call(call):
+def _is_logger_call(call, consts=None):
     """logger.warning(...)/self.logger.error(...)/self.__logger.x(...)/logger.log(level, msg...) -> message constant"""
     if not (isinstance(call, ast.Call) and isinstance(call.func, ast.Attribute)):
         return None
@@ -234,6 +234,8 @@ def _is_logger_call(call):
     if not args:
         raise TranslateError("logger call without a message")
     msg = args[0]
+    if isinstance(msg, ast.Name) and consts and msg.id in consts:
+        msg = consts[msg.id]              # a local bound to a constant expression just above (e.g. separator = "-" * 40)
     if isinstance(msg, ast.Constant) and isinstance(msg.value, str):
         return msg.value
     if isinstance(msg, ast.BinOp) and isinstance(msg.left, ast.Constant) and msg.left.value == "-":
@@ -271,11 +273,16 @@ def _is_call_to(stmt, *names, awaited=None):
 def _classify_body(body, exc_name, classes, module, where):
     """Body of an except handler -> (action text, closes flag)."""
     logs, closes, action = [], False, None
+    consts = {}
     for i, st in enumerate(body):
         last = i == len(body) - 1
         if isinstance(st, ast.Pass):
             continue
-        if isinstance(st, ast.Expr) and (msg := _is_logger_call(st.value)) is not None:
+        if isinstance(st, ast.Assign) and len(st.targets) == 1 and isinstance(st.targets[0], ast.Name) \
+                and not any(isinstance(n, (ast.Call, ast.Await, ast.Name, ast.Attribute, ast.Subscript)) for n in ast.walk(st.value)):
+            consts[st.targets[0].id] = st.value      # a local bound to a constant expression: cannot raise, no effect
+            continue
+        if isinstance(st, ast.Expr) and (msg := _is_logger_call(st.value, consts)) is not None:
             code = _log_code(msg)
             if code:
                 logs.append(code)
@@ -311,6 +318,32 @@ def _no_raise_inside(node):
     return not any(isinstance(n, (ast.Raise, ast.Return, ast.Await, ast.Yield, ast.YieldFrom)) for n in ast.walk(node))
 
 
+def _is_pure_test(test):
+    """a condition built from isinstance(), attribute reads, comparisons and boolean operators only"""
+    for n in ast.walk(test):
+        if isinstance(n, ast.Call):
+            f = n.func
+            name = f.id if isinstance(f, ast.Name) else f.attr if isinstance(f, ast.Attribute) else None
+            if name not in ("isinstance", "is_ssl_eof_error"):
+                return False
+        elif isinstance(n, (ast.Await, ast.Yield, ast.YieldFrom, ast.NamedExpr, ast.Lambda)):
+            return False
+    return True
+
+
+def _is_log_only_stmt(st):
+    """pass / a logging call / a call of one of the known log-only helpers / a nested log-only if"""
+    if isinstance(st, ast.Pass):
+        return True
+    if isinstance(st, ast.If):
+        return _is_pure_test(st.test) and all(_is_log_only_stmt(b) for b in st.body + st.orelse)
+    if isinstance(st, ast.Expr) and isinstance(st.value, ast.Call):
+        if _is_logger_call(st.value, {}) is not None:
+            return True
+        return _is_call_to(st, "log_connection_error", "__default_handshake_error_handler", awaited=False)
+    return False
+
+
 def _is_logonly_if(st, exc_name):
     """Recognised log-only statements:
        (listener)  if isinstance(exc, OSError) and exc.errno in constants.NOT_CONNECTED_SOCKET_ERRNOS: pass
@@ -323,6 +356,8 @@ def _is_logonly_if(st, exc_name):
         return True
     if not isinstance(st, ast.If):
         return False
+    if _is_pure_test(st.test) and all(_is_log_only_stmt(b) for b in st.body + st.orelse):
+        return True
     src = ast.unparse(st.test)
     if src == f"isinstance({exc_name}, OSError) and {exc_name}.errno in constants.NOT_CONNECTED_SOCKET_ERRNOS":
         return all(isinstance(s, ast.Pass) for s in st.body) and len(st.orelse) == 1 and \
@@ -423,7 +458,7 @@ def _tr_tcp_init(tree):
             return "SLogDisconnected"
         raise TranslateError(f"{where}: unrecognised exit-stack registration: {call_src[:120]!r}")
 
-    common_before, plain, tls, common_after = [], [], [], []
+    common_before, plain, tls, tls_nc, common_after = [], [], [], [], []
     reraises = None
     seen_yield = False
     seen_branch = False
@@ -445,23 +480,28 @@ def _tr_tcp_init(tree):
             continue
         if seen_yield:
             raise TranslateError(f"{where}: statements after `yield client`")
-        if isinstance(st, ast.If) and "client_address is None" in ast.unparse(st.test):
-            continue  # yield None; return  (no client: nothing to protect)
+        if isinstance(st, ast.If) and not st.orelse and len(st.body) == 2 and ast.unparse(st.body[0]) == "yield None" \
+                and ast.unparse(st.body[1]) == "return" and ast.unparse(st.test).endswith(" is None"):
+            continue  # the peer is already gone: yield None; return  (no client: nothing to protect)
         if isinstance(st, ast.If) and "TLSAttribute.sslcontext" in ast.unparse(st.test):
             # plain branch / TLS standard-compatible branch
             seen_branch = True
             for s in st.body:
                 if f"{stack}." in ast.unparse(s):
                     plain.append(item_of(ast.unparse(s)))
-            for s in st.orelse:
-                if isinstance(s, ast.If):
-                    for s2 in s.body:
-                        if f"{stack}." in ast.unparse(s2):
-                            tls.append(item_of(ast.unparse(s2)))
-                    if s.orelse:
-                        raise TranslateError(f"{where}: unexpected else in the TLS branch")
-                elif f"{stack}." in ast.unparse(s):
-                    tls.append(item_of(ast.unparse(s)))
+            # elif standard_compatible: ...  [else: ...]   -- three transport flavours
+            rest = st.orelse
+            if len(rest) == 1 and isinstance(rest[0], ast.If) and "standard_compatible" in ast.unparse(rest[0].test):
+                for s2 in rest[0].body:
+                    if f"{stack}." in ast.unparse(s2):
+                        tls.append(item_of(ast.unparse(s2)))
+                for s2 in rest[0].orelse:
+                    if isinstance(s2, ast.If):
+                        raise TranslateError(f"{where}: more than three transport branches")
+                    if f"{stack}." in ast.unparse(s2):
+                        tls_nc.append(item_of(ast.unparse(s2)))
+            elif rest:
+                raise TranslateError(f"{where}: unexpected shape of the TLS branch")
             continue
         if f"{stack}." in src:
             if not isinstance(st, ast.Expr):
@@ -473,7 +513,8 @@ def _tr_tcp_init(tree):
         raise TranslateError(f"{where}: unrecognised statement: {src[:160]!r}")
     if reraises is None:
         raise TranslateError(f"{where}: `yield client` not found")
-    return common_before + plain + common_after, common_before + tls + common_after, reraises
+    return (common_before + plain + common_after, common_before + tls + common_after,
+            common_before + tls_nc + common_after, reraises)
 
 
 def _tr_misc_stream(tree, classes):
@@ -717,8 +758,408 @@ def _tr_receivers(tree):
     return result
 
 
+def _throwaction_classes(handlers, classes, module, assign_ok):
+    """classes named by the handlers of a try whose body is `return ThrowAction(exc)` (or `action = ThrowAction(exc)`)"""
+    out = []
+    for h in handlers:
+        if h.name is None or len(h.body) != 1:
+            continue
+        b = h.body[0]
+        ok = isinstance(b, ast.Return) and b.value is not None and ast.unparse(b.value) == f"ThrowAction({h.name})"
+        if assign_ok:
+            ok = ok or (isinstance(b, ast.Assign) and ast.unparse(b.value) == f"ThrowAction({h.name})")
+        if ok:
+            out.extend([0] if h.type is None else classes.resolve(h.type, module))
+    return out
+
+
+def _wait_clauses(fn, classes, module, where, assign_ok):
+    """Classes caught (and turned into a ThrowAction) around the `with ... backend.timeout(<delay>)` statement of fn."""
+    found = []
+
+    def visit(node, caught):
+        if isinstance(node, ast.Try):
+            here = caught + _throwaction_classes(node.handlers, classes, module, assign_ok)
+            for ch in node.body:
+                visit(ch, here)
+            for ch in [x for h in node.handlers for x in h.body] + node.orelse + node.finalbody:
+                visit(ch, caught)
+            return
+        if isinstance(node, ast.With) and any(".timeout(" in ast.unparse(i.context_expr) for i in node.items):
+            found.append(sorted(set(caught)))
+        for ch in ast.iter_child_nodes(node):
+            visit(ch, caught)
+
+    for st in fn.body:
+        visit(st, [])
+    if len(found) != 1:
+        raise TranslateError(f"{where}: expected exactly one `with ... timeout(...)` statement, found {len(found)}")
+    return found[0]
+
+
+def _tr_wait_clauses(stream_tree, dgram_tree, classes):
+    smod = importlib.import_module("easynetwork.lowlevel.api_async.servers.stream")
+    dmod = importlib.import_module("easynetwork.lowlevel.api_async.servers.datagram")
+    a = _wait_clauses(_find(stream_tree, "_RequestReceiver", "next"), classes, smod, "stream._RequestReceiver.next", False)
+    b = _wait_clauses(_find(stream_tree, "_BufferedRequestReceiver", "next"), classes, smod, "stream._BufferedRequestReceiver.next", False)
+    tcp = sorted(set(a) & set(b))          # what BOTH receivers turn into a ThrowAction
+    udp = _wait_clauses(_find(dgram_tree, "AsyncDatagramServer", "__client_coroutine_inner_loop"), classes, dmod,
+                        "datagram.AsyncDatagramServer.__client_coroutine_inner_loop", True)
+    return tcp, udp
+
+
 def _b(x):
     return "true" if x else "false"
+
+
+# ----------------------------------------------------------------------------------------------------------------
+# behavioural fallback of the translator.
+# When the AST of a filter site is outside the recognised fragment (a behaviour-preserving rewrite: match -> isinstance
+# chain, extracted helper, ...), the REAL function is probed on the complete canonical domain of exception values (7 naked
+# kinds + every non-empty set of leaves as a flat group, plus nested / duplicated variants) and its behaviour (what
+# escapes, which classified log records) is compared with the reference table of that site evaluated by a Python mirror
+# of the model's semantics.  Equal everywhere -> the reference table is emitted (and says so in a comment);
+# any difference -> the translator still fails closed, naming the first differing input.
+# ----------------------------------------------------------------------------------------------------------------
+REF_TCP_SUPPRESS = [("star", [(["ClientClosedError"], ("swallow", 1), False), (["ConnectionError"], ("swallow", 0), False)]),
+                    ("plain", [(["Exception"], ("swallow", 2), False)])]
+REF_TCP_DISCONNECT = [("star", [(["ConnectionError"], ("swallow", 3), False)])]
+REF_UDP_AEXIT = [("split", "BaseExceptionGroup", "ClientClosedError", 1, ("suppress", 0), [("Exception", ("suppress", 2))], ("raiserest",)),
+                 ("class", "ClientClosedError", ("suppress", 1)),
+                 ("class", "Exception", ("suppress", 2)),
+                 ("default", ("propagate",))]
+
+
+def _ref_class(name):
+    from easynetwork.exceptions import ClientClosedError
+    return {"ClientClosedError": ClientClosedError, "ConnectionError": ConnectionError, "Exception": Exception,
+            "BaseException": BaseException, "BaseExceptionGroup": BaseExceptionGroup}[name]
+
+
+class _Mirror:
+    """Python mirror of Conc/Isolation.v (layers_run / match_run) on exception values ('n', leaf) | ('g', [leaves])."""
+
+    def __init__(self, udp):
+        self.leaves = _leaf_classes(udp)
+
+    def leaf_is(self, k, c):
+        return issubclass(self.leaves[k], _ref_class(c))
+
+    def group_is_exc(self, g):
+        return all(self.leaf_is(k, "Exception") for k in g)
+
+    def groupobj(self, cs, g):
+        obj = ExceptionGroup if self.group_is_exc(g) else BaseExceptionGroup
+        return any(issubclass(obj, _ref_class(c)) for c in cs)
+
+    def plain_matches(self, cs, e):
+        return any(self.leaf_is(e[1], c) for c in cs) if e[0] == "n" else self.groupobj(cs, e[1])
+
+    def action(self, a, e):
+        if a[0] == "swallow":
+            return None, ([a[1]] if a[1] else [])
+        if a[0] == "reraise":
+            return e, []
+        return (None, []) if self.plain_matches([a[1]], e) else (e, [])
+
+    def layer(self, layer, e):
+        kind, clauses = layer
+        if kind == "plain":
+            for cs, a, _c in clauses:
+                if self.plain_matches(cs, e):
+                    return self.action(a, e)
+            return e, []
+        if e[0] == "n":
+            for cs, a, _c in clauses:
+                if any(self.leaf_is(e[1], c) for c in cs):
+                    return self.action(a, ("g", [e[1]]))
+            return e, []
+        rest, rr, logs = list(e[1]), [], []
+        for cs, a, _c in clauses:
+            if not rest:
+                break
+            whole = self.groupobj(cs, rest)
+            m = rest if whole else [k for k in rest if any(self.leaf_is(k, c) for c in cs)]
+            r = [] if whole else [k for k in rest if not any(self.leaf_is(k, c) for c in cs)]
+            if not m:
+                continue
+            x, lg = self.action(a, ("g", m))
+            rr += [] if x is None else ([x[1]] if x[0] == "n" else list(x[1]))
+            logs += lg
+            rest = r
+        out = rr + rest
+        return (("g", out) if out else None), logs
+
+    def layers(self, layers, e):
+        logs = []
+        for layer in layers:
+            e, lg = self.layer(layer, e)
+            logs += lg
+            if e is None:
+                break
+        return e, logs
+
+    def mres(self, r, orig, rest):
+        if r[0] == "suppress":
+            return None, ([r[1]] if r[1] else [])
+        return (orig, []) if r[0] == "propagate" else (rest, [])
+
+    def match(self, cases, e):
+        for c in cases:
+            if c[0] == "class":
+                if self.plain_matches([c[1]], e):
+                    return self.mres(c[2], e, e)
+            elif c[0] == "default":
+                return self.mres(c[1], e, e)
+            else:
+                _t, cg, csplit, lsplit, rnone, inner, dflt = c
+                if e[0] != "g" or not self.groupobj([cg], e[1]):
+                    continue
+                g = e[1]
+                whole = self.groupobj([csplit], g)
+                m = g if whole else [k for k in g if self.leaf_is(k, csplit)]
+                r = [] if whole else [k for k in g if not self.leaf_is(k, csplit)]
+                lg1 = [lsplit] if (m and lsplit) else []
+                if not r:
+                    x, lg = self.mres(rnone, e, e)
+                    return x, lg1 + lg
+                rest = ("g", r)
+                res = dflt
+                for cn, rr in inner:
+                    if self.plain_matches([cn], rest):
+                        res = rr
+                        break
+                x, lg = self.mres(res, e, rest)
+                return x, lg1 + lg
+        return e, []
+
+
+def _probe_domain():
+    """(spec, nested) over the complete canonical domain + some non-canonical shapes"""
+    out = [([0, k], False) for k in range(N_LEAVES)]
+    for n in range(1, N_LEAVES + 1):
+        for sub in itertools.combinations(range(N_LEAVES), n):
+            out.append(([1, list(sub)], False))
+            if n >= 2:
+                out.append(([1, list(sub)], True))
+    out += [([1, [0, 0]], False), ([1, [3, 2, 3]], False), ([1, [6, 0, 6]], True)]
+    return out
+
+
+def _canon_exc(exc, udp):
+    """observed exception -> None | ('n', leaf) | ('g', frozenset(leaves), is ExceptionGroup)"""
+    if exc is None:
+        return None
+    leaves = _leaf_classes(udp)
+
+    def code(e):
+        for k, c in enumerate(leaves):
+            if type(e) is c:
+                return k
+        return ("other", type(e).__name__)
+
+    if isinstance(exc, BaseExceptionGroup):
+        acc = []
+
+        def walk(e):
+            if isinstance(e, BaseExceptionGroup):
+                for x in e.exceptions:
+                    walk(x)
+            else:
+                acc.append(code(e))
+        walk(exc)
+        return ("g", frozenset(acc), isinstance(exc, ExceptionGroup))
+    return ("n", code(exc))
+
+
+def _canon_model(e, mirror):
+    if e is None:
+        return None
+    if e[0] == "n":
+        return ("n", e[1])
+    return ("g", frozenset(e[1]), mirror.group_is_exc(e[1]))
+
+
+class _ProbeLog(logging.Handler):
+    def __init__(self):
+        super().__init__(logging.DEBUG)
+        self.codes = []
+
+    def emit(self, record):
+        c = _log_code(record.msg if isinstance(record.msg, str) else str(record.msg))
+        if c:
+            self.codes.append(c)
+
+
+def _probe_logger():
+    lg = logging.getLogger("c17.probe")
+    h = _ProbeLog()
+    lg.handlers[:] = [h]
+    lg.setLevel(logging.DEBUG)
+    lg.propagate = False
+    return lg, h
+
+
+def _behaves_like(site, observe, reference_eval, udp, err):
+    """observe(exc) -> (escaped exception or None, log codes); reference_eval(e) -> (model exc, logs)"""
+    mirror = _Mirror(udp)
+    n = 0
+    for spec, nested in _probe_domain():
+        exc = make_exc(spec, udp, nested)
+        got_exc, got_logs = observe(exc)
+        e = ("n", spec[1]) if spec[0] == 0 else ("g", list(spec[1]))
+        want_exc, want_logs = reference_eval(mirror, e)
+        if _canon_exc(got_exc, udp) != _canon_model(want_exc, mirror) or list(got_logs) != list(want_logs):
+            raise TranslateError(f"{err}; and the behaviour of {site} differs from its reference table on {spec} "
+                                 f"(nested={nested}): escapes {_canon_exc(got_exc, udp)} logs {got_logs}, reference "
+                                 f"{_canon_model(want_exc, mirror)} logs {want_logs}")
+        n += 1
+    return n
+
+
+def _fallback_tcp_suppress(err):
+    import types
+    from easynetwork.servers.async_tcp import AsyncTCPNetworkServer
+    cm = getattr(AsyncTCPNetworkServer, "_AsyncTCPNetworkServer__suppress_and_log_remaining_exception")
+    lg, h = _probe_logger()
+    fake = types.SimpleNamespace(logger=lg)
+
+    def observe(exc):
+        del h.codes[:]
+        try:
+            with cm(fake, client_address=("127.0.0.1", 1)):
+                raise exc
+        except BaseException as out:  # noqa: BLE001
+            return out, list(h.codes)
+        return None, list(h.codes)
+
+    return _behaves_like("async_tcp.__suppress_and_log_remaining_exception", observe,
+                         lambda m, e: m.layers(REF_TCP_SUPPRESS, e), False, err)
+
+
+def _fallback_udp_aexit(err):
+    import types
+    from easynetwork.servers import async_udp
+    lg, h = _probe_logger()
+    server = types.SimpleNamespace(extra=lambda *a, **k: socket.AF_INET)
+    ll = types.SimpleNamespace(address=("127.0.0.1", 5), server=server)
+
+    def observe(exc):
+        del h.codes[:]
+        ctx = async_udp._ClientContext(ll, {}, None, lg)
+        loop = asyncio.new_event_loop()
+        try:
+            try:
+                swallowed = loop.run_until_complete(ctx.__aexit__(type(exc), exc, None))
+            except BaseException as out:  # noqa: BLE001
+                return out, list(h.codes)
+        finally:
+            loop.close()
+        return (None if swallowed else exc), list(h.codes)
+
+    return _behaves_like("async_udp._ClientContext.__aexit__", observe, lambda m, e: m.match(REF_UDP_AEXIT, e), True, err)
+
+
+def _fallback_misc_stream(err):
+    """disconnect_client's filter and whether it is registered only once on_connection() has completed"""
+    from easynetwork.servers.handlers import AsyncStreamRequestHandler
+    from easynetwork.servers.misc import build_lowlevel_stream_server_handler
+    lg, h = _probe_logger()
+    state = {}
+
+    class RH(AsyncStreamRequestHandler):
+        async def on_connection(self, client):
+            if state.get("conn_exc") is not None:
+                raise state["conn_exc"]
+
+        async def handle(self, client):
+            yield
+
+        async def on_disconnection(self, client):
+            state["disc_called"] = True
+            state["disc_inside_initializer"] = not state.get("initializer_exited", False)
+            if state.get("disc_exc") is not None:
+                raise state["disc_exc"]
+
+    class FakeClient:
+        def is_closing(self):
+            return False
+
+    @contextlib.asynccontextmanager
+    async def initializer(ll):
+        try:
+            yield FakeClient()
+        finally:
+            state["initializer_exited"] = True
+
+    handler = build_lowlevel_stream_server_handler(initializer, RH(), logger=lg)
+
+    def run(conn_exc, disc_exc):
+        state.clear()
+        state.update(conn_exc=conn_exc, disc_exc=disc_exc)
+        del h.codes[:]
+
+        async def drive():
+            gen = handler(object())
+            try:
+                await gen.asend(None)
+            except BaseException as out:  # noqa: BLE001
+                return out
+            try:
+                await gen.aclose()
+            except BaseException as out:  # noqa: BLE001
+                return out
+            return None
+
+        loop = asyncio.new_event_loop()
+        try:
+            return loop.run_until_complete(drive())
+        finally:
+            loop.close()
+
+    n = _behaves_like("misc.build_lowlevel_stream_server_handler.handler.disconnect_client",
+                      lambda exc: (run(None, exc), list(h.codes)), lambda m, e: m.layers(REF_TCP_DISCONNECT, e), False, err)
+    run(None, None)
+    if not state.get("disc_called") or not state.get("disc_inside_initializer"):
+        raise TranslateError(f"{err}; and on_disconnection() does not run inside the initializer's context (the per-client "
+                             "suppressor would not cover it)")
+    run(ValueError("on_connection fails"), None)
+    disc_after = not state.get("disc_called", False)
+    return n, disc_after
+
+
+def _render_layers(layers, classes):
+    out = []
+    for kind, clauses in layers:
+        cl = []
+        for cs, a, closes in clauses:
+            ids = [classes.add_obj(c if c in ("ConnectionError", "Exception", "BaseException") else
+                                   f"{_ref_class(c).__module__}.{_ref_class(c).__qualname__}", _ref_class(c)) for c in cs]
+            act = f"ASwallow {a[1]}" if a[0] == "swallow" else "AReraise" if a[0] == "reraise" else \
+                f"AReraiseUnless {classes.add_obj(a[1], _ref_class(a[1]))}"
+            cl.append("{| c_classes := [%s]; c_action := %s; c_closes := %s |}" % ("; ".join(map(str, ids)), act, _b(closes)))
+        out.append(("LStar " if kind == "star" else "LPlain ") + "[" + ";\n      ".join(cl) + "]")
+    return out
+
+
+def _render_mcases(cases, classes):
+    def cid(name):
+        obj = _ref_class(name)
+        return classes.add_obj(name if obj.__module__ == "builtins" else f"{obj.__module__}.{obj.__qualname__}", obj)
+
+    def res(r):
+        return f"MSuppress {r[1]}" if r[0] == "suppress" else "MPropagate" if r[0] == "propagate" else "MRaiseRest"
+
+    out = []
+    for c in cases:
+        if c[0] == "class":
+            out.append(f"MClass {cid(c[1])} ({res(c[2])})")
+        elif c[0] == "default":
+            out.append(f"MDefault ({res(c[1])})")
+        else:
+            inner = "; ".join(f"({cid(n)}, {res(r)})" for n, r in c[5])
+            out.append(f"MGroupSplit {cid(c[1])} {cid(c[2])} {c[3]} ({res(c[4])}) [{inner}] ({res(c[6])})")
+    return "[" + ";\n    ".join(out) + "]"
 
 
 def params():
@@ -733,15 +1174,33 @@ def params():
 def _params():
     classes = _Classes()
     tcp = _src(SRC + "servers/async_tcp.py")
-    suppress = _tr_tcp_suppress(tcp, classes)
-    st_plain, st_tls, reraises = _tr_tcp_init(tcp)
-    disc_layer, disc_after = _tr_misc_stream(_src(SRC + "servers/misc.py"), classes)
+    notes = []
+    try:
+        suppress = _tr_tcp_suppress(tcp, classes)
+    except TranslateError as exc:
+        n = _fallback_tcp_suppress(str(exc))
+        suppress = _render_layers(REF_TCP_SUPPRESS, classes)
+        notes.append(f"tcp_suppress: behavioural ({n} probes equal the reference table); AST: {exc}")
+    st_plain, st_tls, st_tls_nc, reraises = _tr_tcp_init(tcp)
+    try:
+        disc_layer, disc_after = _tr_misc_stream(_src(SRC + "servers/misc.py"), classes)
+    except TranslateError as exc:
+        n, disc_after = _fallback_misc_stream(str(exc))
+        (disc_layer,) = _render_layers(REF_TCP_DISCONNECT, classes)
+        notes.append(f"tcp_disconnect_hook / misc_disconnect_after_connection: behavioural ({n} probes); AST: {exc}")
     close_first = _tr_stream_task(_src(SRC + "lowlevel/api_async/servers/stream.py"))
     recv_protected = _tr_receivers(_src(SRC + "lowlevel/api_async/servers/stream.py"))
     listener = _tr_listener(_src(SRC + "lowlevel/api_async/backend/_asyncio/stream/listener.py"), classes)
     tls = _tr_tls(_src(SRC + "lowlevel/api_async/transports/tls.py"), classes)
-    udp = _tr_udp_aexit(_src(SRC + "servers/async_udp.py"), classes)
+    try:
+        udp = _tr_udp_aexit(_src(SRC + "servers/async_udp.py"), classes)
+    except TranslateError as exc:
+        n = _fallback_udp_aexit(str(exc))
+        udp = _render_mcases(REF_UDP_AEXIT, classes)
+        notes.append(f"udp_aexit: behavioural ({n} probes equal the reference table); AST: {exc}")
     in_finally, marks_first = _tr_udp_task(_src(SRC + "lowlevel/api_async/servers/datagram.py"))
+    tcp_wait, udp_wait = _tr_wait_clauses(_src(SRC + "lowlevel/api_async/servers/stream.py"),
+                                          _src(SRC + "lowlevel/api_async/servers/datagram.py"), classes)
 
     # instance table from the real classes
     tcp_leaves, udp_leaves = _leaf_classes(False), _leaf_classes(True)
@@ -765,6 +1224,7 @@ def _params():
         "Import ListNotations.",
         "Open Scope Z_scope.",
         "(* classes named by the clauses: " + ", ".join(f"{i}={n}" for i, n in enumerate(classes.names)) + " *)",
+    ] + ["(* " + x.replace("(*", "( *").replace("*)", "* )") + " *)" for x in notes] + [
         "Definition C_BaseException : cls := 0%nat.",
         "Definition C_Exception : cls := 1%nat.",
         "Definition C_Cancelled : cls := 2%nat.",
@@ -775,8 +1235,10 @@ def _params():
         "Local Open Scope nat_scope.",
         "Definition tcp_suppress : list layer :=\n  [" + ";\n   ".join(suppress) + "].",
         "Definition tcp_disconnect_hook : list layer :=\n  [" + disc_layer + "].",
-        "Definition tcp_init_stack (tls : bool) : list stack_item :=\n  if tls then [" + "; ".join(st_tls) + "] else ["
-        + "; ".join(st_plain) + "].",
+        "Definition tcp_init_stack (f : flavour) : list stack_item :=\n  match f with\n  | FPlain => [" + "; ".join(st_plain)
+        + "]\n  | FTlsCompat => [" + "; ".join(st_tls) + "]\n  | FTls => [" + "; ".join(st_tls_nc) + "]\n  end.",
+        "Definition tcp_wait_clauses : list cls := [" + "; ".join(map(str, tcp_wait)) + "].",
+        "Definition udp_wait_clauses : list cls := [" + "; ".join(map(str, udp_wait)) + "].",
         f"Definition tcp_init_reraises : bool := {_b(reraises)}.",
         f"Definition misc_disconnect_after_connection : bool := {_b(disc_after)}.",
         f"Definition stream_close_pushed_first : bool := {_b(close_first)}.",
@@ -848,7 +1310,7 @@ def _stream_handler(world):
                 return self._ok()
             self.faulty = client
             s.hooks.append(1)
-            if s.pos in (1, 2):
+            if s.pos in (1, 2, 11):
                 return self._conn_gen(s)
             return self._conn_coro(s)
 
@@ -902,6 +1364,16 @@ def _stream_handler(world):
                 req = yield
                 s.hooks.append(3)
                 raise s.exc1()
+            if s.pos >= 20:
+                try:
+                    req = yield DELAYS[s.pos - 20]
+                except BaseException as thrown:
+                    if isinstance(thrown, (GeneratorExit, asyncio.CancelledError)):
+                        raise
+                    s.hooks.append(5)
+                    raise s.exc1()
+                s.hooks.append(3)
+                raise s.exc1()
             if s.pos == 10:
                 try:
                     req = yield
@@ -950,6 +1422,16 @@ def _datagram_handler(world):
             if s.pos == 1:
                 raise s.exc1()
             await client.send_packet("re:" + req)
+            if s.pos >= 20:
+                try:
+                    req = yield DELAYS[s.pos - 20]
+                except BaseException as thrown:
+                    if isinstance(thrown, (GeneratorExit, asyncio.CancelledError)):
+                        raise
+                    s.hooks.append(5)
+                    raise s.exc1()
+                s.hooks.append(3)
+                raise s.exc1()
             if s.pos == 2:
                 try:
                     req = yield
@@ -1059,12 +1541,13 @@ class World:
             from easynetwork.servers.async_tcp import AsyncTCPNetworkServer
             kw = {}
             self.cctx = None
-            if self.srv == 1:
+            if self.srv in (1, 3):
                 sctx = ssl.SSLContext(ssl.PROTOCOL_TLS_SERVER)
                 sctx.load_cert_chain(os.path.join(CERT_DIR, "c17_server.crt"), os.path.join(CERT_DIR, "c17_server.key"))
                 self.cctx = ssl.SSLContext(ssl.PROTOCOL_TLS_CLIENT)
                 self.cctx.load_verify_locations(os.path.join(CERT_DIR, "c17_server.crt"))
-                kw = dict(ssl=sctx, ssl_handshake_timeout=1.0, ssl_shutdown_timeout=1.0)
+                kw = dict(ssl=sctx, ssl_handshake_timeout=1.0, ssl_shutdown_timeout=1.0,
+                          ssl_standard_compatible=(self.srv == 1))
             self.handler = _stream_handler(self)
             # plain world: copying receiver (_RequestReceiver); TLS world: buffer-filling one (_BufferedRequestReceiver)
             from easynetwork.protocol import BufferedStreamProtocol
@@ -1088,7 +1571,7 @@ class World:
             s.setblocking(False)
             s.bind(("127.0.0.1", 0))
             return s
-        use_tls = (self.srv == 1) if tls is None else tls
+        use_tls = (self.srv in (1, 3)) if tls is None else tls
         if use_tls:
             return await asyncio.wait_for(asyncio.open_connection(*self.addr, ssl=self.cctx, server_hostname="localhost"), 5)
         return await asyncio.wait_for(asyncio.open_connection(*self.addr), 5)
@@ -1215,6 +1698,15 @@ class World:
             await self._send(f, b"x")
         elif pos == 5:
             await self._send(f, b"\xff\xfe")
+        elif pos == 11:
+            f[1].close()                      # the peer leaves while the on_connection() generator waits for its first request
+            await asyncio.sleep(SETTLE)
+            return 1
+        elif pos >= 20:
+            await self._send(f, b"x")
+            await self._recv(f)
+            if pos - 20 in DELAY_WAITS:
+                await self._send(f, b"y")
         elif pos == 10:
             # a valid request and a malformed frame in ONE chunk: the second one is already buffered when handle() yields again
             await self._send(f, b"x\n\xff\xfe")
@@ -1232,6 +1724,10 @@ class World:
 
     async def _udp_script(self, f, pos):
         await self._send(f, b"x")
+        if pos >= 20:
+            await self._recv(f)
+            if pos - 20 in DELAY_WAITS:
+                await self._send(f, b"y")
         if pos in (2, 3, 4):
             await self._recv(f)
             if pos == 2:
@@ -1319,10 +1815,12 @@ def run_impl(inp):
 # ----------------------------------------------------------------------------------------------------------------
 # cases
 # ----------------------------------------------------------------------------------------------------------------
-TCP_POSITIONS = list(range(11))
-UDP_POSITIONS = list(range(5))
-HARD_TCP_POS = {5, 6, 7, 8, 9, 10}
-HARD_UDP_POS = {2, 3, 4}
+DELAYS = [None, 0, 0.5, -1, float('inf'), float('nan'), 'abc', 10 ** 400]      # codes 0..7: positions 20 + code
+DELAY_WAITS = {0, 4}             # delays with which the receiver simply waits for the next request
+TCP_POSITIONS = list(range(12)) + [20 + d for d in range(8)]
+UDP_POSITIONS = list(range(5)) + [20 + d for d in range(8)]
+HARD_TCP_POS = {5, 6, 7, 8, 9, 10, 11} | {20 + d for d in range(8)}
+HARD_UDP_POS = {2, 3, 4} | {20 + d for d in range(8)}
 
 
 def _naked():
@@ -1348,7 +1846,7 @@ def _has_fatal(spec):
 
 
 def _tags(srv, scen, pos, e1, e2, nested, extra=()):
-    t = [("tcp", "tls", "udp")[srv], f"scen{scen}"]
+    t = [("tcp", "tls", "udp", "tls-nsc")[srv], f"scen{scen}"]
     if scen == 0:
         t.append(f"pos{pos}")
     if e1:
@@ -1372,38 +1870,40 @@ def cases(tier, rng, escalate):
     gmax = 6 if thorough else 2
     excs = _naked() + _groups(gmax)
     # 1. every kind x every position, one fault
-    for srv in (0, 1):
+    few = _naked() + [[1, [3, 0]], [1, [2, 3]], [1, [0, 6]]]
+    for srv in (0, 1, 3):
         for pos in TCP_POSITIONS:
-            for e1 in excs:
+            for e1 in (excs if thorough or pos < 20 else few):
                 yield _case(srv, pos, e1)
     for pos in UDP_POSITIONS:
-        for e1 in excs:
+        for e1 in (excs if thorough or pos < 20 else few):
             yield _case(2, pos, e1)
     # 2. a second fault raised by on_disconnection
     firsts = _naked() + [[1, [3, 0]], [1, [2]]] if thorough else [[0, 0], [0, 2], [0, 3], [0, 6], [1, [3, 0]]]
     seconds = excs if thorough else _naked() + [[1, [2]], [1, [3, 0]], [1, [2, 3]], [1, [0, 6]], [1, [4, 5, 1]]]
-    for srv in (0, 1):
-        for pos in (3, 4, 5, 6, 7, 8, 10):
+    for srv in (0, 1, 3):
+        for pos in (3, 4, 5, 6, 7, 8, 10, 11, 20, 25, 26) if thorough or srv != 3 else (4, 9, 11, 25):
             for e1 in firsts:
                 for e2 in seconds:
                     yield _case(srv, pos, e1, e2)
     # 3. nested groups (the model abstracts a group to its leaves)
-    for srv in (0, 1, 2):
+    for srv in (0, 1, 2, 3):
         for pos in ((1, 4) if srv == 2 else (0, 4, 9)):
             for e1 in excs:
                 if e1[0] == 1 and len(e1[1]) >= 2:
                     yield _case(srv, pos, e1, None, 1)
     # 4. set-up faults: injected into the accepted-socket factory / the TLS wrap, and real ones
     sexcs = _naked() + [[1, [0]], [1, [2, 3]], [1, [1, 4]], [1, [0, 6]], [1, list(EXC_LEAVES)]]
-    for srv in (0, 1):
+    for srv in (0, 1, 3):
         for e in sexcs:
             yield dict(input=[srv, 1, 0, e, 0], tags=_tags(srv, 1, 0, e, None, 0, ["setup-connect"]), nontrivial=True)
         yield dict(input=[srv, 1, 0, [0, 1], 2], tags=_tags(srv, 1, 0, [0, 1], None, 0, ["setup-real-rst"]), nontrivial=True)
-    for e in sexcs:
-        yield dict(input=[1, 1, 1, e, 0], tags=_tags(1, 1, 0, e, None, 0, ["setup-handshake"]), nontrivial=True)
-    for real, e, name in ((3, [0, 1], "garbage"), (4, [0, 4], "stalled"), (5, [0, 2], "eof")):
-        for _ in range(3 if thorough else 1):
-            yield dict(input=[1, 1, 1, e, real], tags=_tags(1, 1, 0, e, None, 0, [f"setup-real-{name}"]), nontrivial=True)
+    for srv in (1, 3):
+        for e in sexcs:
+            yield dict(input=[srv, 1, 1, e, 0], tags=_tags(srv, 1, 0, e, None, 0, ["setup-handshake"]), nontrivial=True)
+        for real, e, name in ((3, [0, 1], "garbage"), (4, [0, 4], "stalled"), (5, [0, 2], "eof")):
+            for _ in range(3 if thorough else 1):
+                yield dict(input=[srv, 1, 1, e, real], tags=_tags(srv, 1, 0, e, None, 0, [f"setup-real-{name}"]), nontrivial=True)
     # 5. the transport close inside aclosing() fails (TLS): an exit callback registered after the suppressor
     for e in sexcs:
         yield dict(input=[1, 2, e], tags=_tags(1, 2, 0, e, None, 0, ["exit-callback"]), nontrivial=True)
@@ -1417,13 +1917,13 @@ def cases(tier, rng, escalate):
         return [1, [rng.choice(leaves) for _ in range(rng.randint(1, 5))]]
 
     for _ in range(n):
-        srv = rng.choice((0, 0, 1, 2))
+        srv = rng.choice((0, 0, 1, 2, 3))
         e1 = rnd_exc(True)
         if srv == 2:
             c = _case(2, rng.choice(UDP_POSITIONS), e1, None, rng.randint(0, 1))
         else:
             pos = rng.choice(TCP_POSITIONS)
-            e2 = rnd_exc(True) if pos >= 3 and pos != 9 and rng.random() < 0.5 else None
+            e2 = rnd_exc(True) if pos not in (0, 1, 2, 9) and rng.random() < 0.5 else None
             c = _case(srv, pos, e1, e2, rng.randint(0, 1))
         c["tags"].append("random")
         yield c
@@ -1444,7 +1944,7 @@ def oracle(inp):
         return None                      # BaseException-only kinds are outside the statement
     out = run_impl(inp)
     alive_a, alive_b, crashed, flag, hooks, _logs = out
-    who = ("TCP", "TLS", "UDP")[srv]
+    who = ("TCP", "TLS", "UDP", "TLS-nsc")[srv]
     what = f"{who} scen={scen} " + (f"pos={inp[2]} " if scen == 0 else "") + f"fault={specs}"
     if crashed:
         return f"server stopped serving: the client task let an exception escape ({what})"
@@ -1457,7 +1957,7 @@ def oracle(inp):
     if not flag:
         return f"failing client's connection was not closed ({what})"
     if scen == 0:
-        connected = inp[2] >= 3
+        connected = inp[2] not in (0, 1, 2, 11)
         if (4 in hooks) != connected:
             return f"on_disconnection ran={4 in hooks} but on_connection completed={connected} ({what})"
     if scen == 1 and hooks:
